@@ -130,7 +130,7 @@ func Routes(c explore.Chooser) *prog.Program {
 
 	verb := s.Pick("r0.verb", "GET", "POST", "PUT", "DELETE")
 	pathForm := s.Pick("r0.path", "literal", "local-const", "package-const", "imported-const", "concat-literal-const", "concat-three", "typed-const", "literal-with-escapes", "raw-literal")
-	handlerForm := s.Pick("r0.handler", "method-value", "method-pointer-var", "package-func", "func-literal", "method-of-other-file", "parenthesised", "method-after-homonym", "func-after-homonym-method")
+	handlerForm := s.Pick("r0.handler", "method-value", "method-pointer-var", "package-func", "func-literal", "method-of-other-file", "parenthesised", "method-after-homonym", "func-after-homonym-method", "pointer-method-on-value-var")
 	ins := routeInputs()
 	var chosen []inputStmt
 	for i := 0; i < 3; i++ {
@@ -208,6 +208,10 @@ func Routes(c explore.Chooser) *prog.Program {
 		handlerDecl = "func (ct controller) h0(c echo.Context) error {\n" + bodySrc + "}\n"
 	case "method-pointer-var":
 		handlerExpr, r0.Handler = "pct.h0", "h0"
+		handlerDecl = "func (ct *controller) h0(c echo.Context) error {\n" + bodySrc + "}\n"
+	case "pointer-method-on-value-var":
+		// a method declared on the pointer receiver, taken from an addressable variable of the value type
+		handlerExpr, r0.Handler = "ct.h0", "h0"
 		handlerDecl = "func (ct *controller) h0(c echo.Context) error {\n" + bodySrc + "}\n"
 	case "package-func":
 		handlerExpr, r0.Handler = "h0", "h0"
